@@ -18,8 +18,10 @@ RULE = ("cases: projective dimension n in 1..5, every chart index 0..n, composit
         "with entries exactly 0 / -0 / 1e-300 / purely imaginary for the outside-the-chart and "
         "automatic-chart clauses; well-conditioned linear maps (cond <= ~1e3), translations, "
         "normals of every direction (axis-aligned, negative) and length 0.1..10; transverse "
-        "subspace pairs of vector dimensions (k1,k2), k1+k2 > n+1, spanned by well-conditioned "
-        "bases, elementwise and pairwise, ndarray or Subspace argument; transformations "
+        "subspace pairs of vector dimensions (k1,k2), k1+k2 > n+1 (coordinate subspaces of a "
+        "well-conditioned frame, tilted by <= 0.15 so that the members of a composite differ, "
+        "each with its own well-conditioned basis), elementwise and pairwise, ndarray or "
+        "Subspace argument; transformations "
         "S diag(lambda) S^-1 with distinct real eigenvalues +-1.25^e (e distinct up to sign), "
         "single and composite, queried at present, nearly-present and absent eigenvalues.  "
         "non-trivial = complex coordinates, or chart index != 0, or dimension >= 3, or pairwise / "
@@ -777,21 +779,21 @@ def body_diag(case, ctx):
 
 
 LAWS = [
-    Law("chart_roundtrip", roundtrip_case(), body_roundtrip, _nt, quick=300, thorough=2500,
+    Law("chart_roundtrip", roundtrip_case(), body_roundtrip, _nt, quick=300, thorough=1500,
         shards=(2, 6)),
-    Law("outside_chart_iff_zero", outside_case(), body_outside, _nt, quick=250, thorough=2000,
+    Law("outside_chart_iff_zero", outside_case(), body_outside, _nt, quick=250, thorough=1200,
         shards=(1, 4)),
-    Law("auto_chart", auto_case(), body_auto, _nt, quick=250, thorough=2000, shards=(1, 4)),
-    Law("affine_linear_map", linmap_case(), body_linmap, _nt, quick=250, thorough=2000,
+    Law("auto_chart", auto_case(), body_auto, _nt, quick=250, thorough=1200, shards=(1, 4)),
+    Law("affine_linear_map", linmap_case(), body_linmap, _nt, quick=250, thorough=1200,
         shards=(1, 4)),
     Law("affine_translation", translation_case(), body_translation, _nt, quick=250,
-        thorough=2000, shards=(1, 4)),
+        thorough=1200, shards=(1, 4)),
     Law("hyperplane_coordinate_transform", hyperplane_case(), body_hyperplane,
-        lambda l: "n=1" not in l, quick=250, thorough=2000, shards=(1, 4)),
-    Law("intersect", intersect_case(), body_intersect, _nt, quick=150, thorough=1200,
+        lambda l: "n=1" not in l, quick=250, thorough=1200, shards=(1, 4)),
+    Law("intersect", intersect_case(), body_intersect, _nt, quick=150, thorough=800,
         shards=(2, 6)),
-    Law("eigenvector", eigvec_case(), body_eigvec, _nt_eig, quick=150, thorough=1200,
+    Law("eigenvector", eigvec_case(), body_eigvec, _nt_eig, quick=150, thorough=800,
         shards=(2, 6)),
-    Law("diagonalize", diag_case(), body_diag, _nt_eig, quick=150, thorough=1200,
+    Law("diagonalize", diag_case(), body_diag, _nt_eig, quick=150, thorough=800,
         shards=(2, 6)),
 ]
